@@ -48,6 +48,7 @@ type Lowerer struct {
 	localConsts       map[string]bool              // Which locals are const declarations (not let/var)
 	localIsVar        map[string]bool              // Which locals are var declarations (not let/const)
 	localIsPtr        map[string]bool              // Which locals are pointer let-bindings (let p = &v[i])
+	structAligns      map[ir.TypeHandle]uint32     // AlignOf of declared structs, including member @align attributes
 	localAbstractASTs map[string]parser.Expr       // Abstract local const init ASTs (deferred to use site)
 	localAbstractEnvs map[string][]abstractCapture // bindings of the names those ASTs mention, as of the declaration
 
@@ -190,6 +191,7 @@ func LowerWithWarnings(ast *parser.Module, source string) (*LowerResult, error) 
 		localConsts:       make(map[string]bool, 4),
 		localIsVar:        make(map[string]bool, 16),
 		localIsPtr:        make(map[string]bool, 4),
+		structAligns:      make(map[ir.TypeHandle]uint32, 4),
 		localAbstractASTs: make(map[string]parser.Expr, 4),
 		localAbstractEnvs: make(map[string][]abstractCapture, 4),
 	}
@@ -736,7 +738,10 @@ func (l *Lowerer) lowerStruct(s *parser.StructDecl) error {
 	}
 	// Round struct size up to alignment of largest member
 	structSize := (offset + maxAlign - 1) &^ (maxAlign - 1)
-	l.registerNamedType(s.Name, ir.StructType{Members: members, Span: structSize})
+	handle := l.registerNamedType(s.Name, ir.StructType{Members: members, Span: structSize})
+	// AlignOf(S) includes explicit @align attributes of the members; the IR keeps
+	// only offsets, so remember it for structs nested in structs and arrays.
+	l.structAligns[handle] = maxAlign
 	return nil
 }
 
@@ -837,6 +842,9 @@ func (l *Lowerer) typeAlignmentAndSize(handle ir.TypeHandle) (align, size uint32
 			if memberAlign > maxMemberAlign {
 				maxMemberAlign = memberAlign
 			}
+		}
+		if declared, ok := l.structAligns[handle]; ok && declared > maxMemberAlign {
+			maxMemberAlign = declared
 		}
 		return maxMemberAlign, t.Span
 
